@@ -66,7 +66,13 @@ type Expect struct {
 	MarginBottom float64           `json:"margin_bottom,omitempty"`
 	// PageMargins: expected [top right bottom left] margins by page kind: first | left | right | blank-left | blank-right
 	PageMargins map[string][4]float64 `json:"page_margins,omitempty"`
+	LegacyAttrs    bool `json:"legacy_attrs,omitempty"` // the document uses presentational attributes
 	MarginCounters bool `json:"margin_counters,omitempty"`
+	// WordPage: expected 0-based page of marker words, computed by the generator's own greedy
+	// model for documents made of fixed-height blocks (reference model)
+	WordPage map[string]int `json:"word_page,omitempty"`
+	// BlocksFit: no in-flow block may end below the content box / above-footnote limit
+	BlocksFit bool `json:"blocks_fit,omitempty"`
 	// FirstLetter: ::first-letter is used, so the first letter of a paragraph is drawn on its own
 	FirstLetter bool `json:"first_letter,omitempty"`
 	// FillPages (with orphans = widows = 1): a page that ends in the middle of a paragraph leaves less than one line unused
